@@ -23,8 +23,8 @@ func SnapshotStore.GetSnapshot
   // (ghost bookkeeping: the hyper digest of the snapshot the store handed out)
   assumes isnil(result_1) && result_0 != nil && result_0.Snapshot != nil ==> lastStoredHyper == result_0.Snapshot.HyperDigest
 func SnapshotStore.PutBatch
-  modifies everything, putBatches
-  assumes putBatches == old(putBatches) + 1
+  modifies everything, putBatches, lastPutBatch
+  assumes putBatches == old(putBatches) + 1 && lastPutBatch == b
 
 func Cache.Get
 func Cache.Set
@@ -106,6 +106,17 @@ func MessageBus.Publish
 
 // encoding reads the message and allocates the wire form
 func Message.Encode
+
+// C18, "a batch is processed once however often and from whomever it arrives": the key of the
+// duplicate check is computed from the batch's snapshots and nothing else (not from the
+// envelope, whose TTL and sender differ from hop to hop) - the one thing the Go code
+// contributes; that equal snapshot lists encode equally and that the cache remembers are the
+// codec's and the cache's.
+func BatchProcessor.wasProcessed
+  props C18
+  requires d.a != nil && b != nil && !isnil(d.log)
+  modifies everything, encodeCalls, lastEncoded
+  ensures C18/duplicate-key-from-the-snapshots-only: encodeCalls == old(encodeCalls) || (encodeCalls == old(encodeCalls) + 1 && istype(lastEncoded, []*protocol.SignedSnapshot) && arrayof(dyn(lastEncoded, []*protocol.SignedSnapshot)) == old(arrayof(b.Snapshots)) && len(dyn(lastEncoded, []*protocol.SignedSnapshot)) == old(len(b.Snapshots)))
 
 // UNVERIFIED (no check claims it yet): route builds a fresh list of non-nil nodes
 // and changes nothing that existed before (Exclude filters into a new list,
